@@ -145,3 +145,16 @@ Definition check_case_mix (c : case_mix) : bool := lN_eqb (model_obs_mix c) (mx_
 (* an actor runs at most one run (its session stream is numbered by ONE run-local counter) *)
 Definition mop_ok (cop_ok : cop -> bool) (o : mop) : bool :=
   match o with MOp c => cop_ok c | MRun ts _ => forallb is_sess ts | MAppends _ ts => forallb is_cont ts end.
+
+(* ---------- any number of sessions, any number of concurrent inputs to each ---------- *)
+Record sess_req := {
+  sq_sid : N;               (* the session *)
+  sq_ts : list etype;       (* what a run of its input writes *)
+  sq_n : nat;               (* clients posting that input at the same time *)
+  sq_gsched : list nat      (* schedule of their guard steps *)
+}.
+Definition sessions_actors (gk : sguard) (qs : list sess_req) : list (list mstep * N) :=
+  concat (map (fun q => session_actors gk (sq_n q) (sq_gsched q) (sq_sid q) (sq_ts q)) qs).
+(* one run per session: what the hypotheses of the theorem speak about *)
+Definition one_run_each (qs : list sess_req) : list (list mstep * N) :=
+  map (fun q => (session_prog (sq_ts q), sq_sid q)) qs.
